@@ -61,7 +61,7 @@ class YosysBehavioralRTLIRToVVisitorL2(
     if loop_var not in s.loopvars:
       s.loopvars.add( loop_var )
 
-    begin    = ' begin' if len( node.body ) > 1 else ''
+    begin    = ' begin' if s._needs_begin_end( node.body ) else ''
 
     cmp_op   = '<' if node.step.value > 0 else '<'
     inc_op   = '+' if node.step.value > 0 else '-'
@@ -83,7 +83,7 @@ class YosysBehavioralRTLIRToVVisitorL2(
     src.extend( [ for_begin ] )
     src.extend( body )
 
-    if len( node.body ) > 1:
+    if s._needs_begin_end( node.body ):
       src.extend( [ 'end' ] )
 
     return src
